@@ -306,9 +306,14 @@ def eval_helpers(repo) -> Dict[str, Tuple[str, str]]:
             break
         cl = _series([0] * 5)
         events = []
-        selfo = cs.ObjV("managed", {"candles": cl, "name": "M", "_active_index": active, "_sub_indicator": True, "sub_indicators": {}, "managed_indicators": {}}, "Managed")
         target = idx if idx is not None else active
-        selfo.attrs["_calculate_sub_indicators"] = (lambda a, k, ev=events, c=cl, t=target: ev.append((tuple(a) + tuple(k.values()), "M" in c[t].attrs["sub_indicators"])))
+        helpers = {}
+        for hn, prior in (("P", True), ("Q", False)):
+            h = cs.ObjV(f"helper {hn}", {"name": hn, "prior_calc": prior, "_sub_calc_prior": prior, "_sub_indicator": True}, "Indicator")
+            h.attrs["calculate_index"] = (lambda a, k, ev=events, c=cl, t=target, n_=hn: ev.append((n_, "calculate_index", tuple(a) + tuple(k.values()), "M" in c[t].attrs["sub_indicators"])))
+            h.attrs["calculate"] = (lambda a, k, ev=events, c=cl, t=target, n_=hn: ev.append((n_, "calculate", (), "M" in c[t].attrs["sub_indicators"])))
+            helpers[hn] = h
+        selfo = cs.ObjV("managed", {"candles": cl, "name": "M", "_active_index": active, "_sub_indicator": True, "sub_indicators": helpers, "managed_indicators": {}}, "Managed")
         R = cs.Sym("the reading", "float")
         got = _run(it, fn, [R] + ([idx] if idx is not None else []), {}, bound=selfo)
         label = f"Managed.set_reading(r{'' if idx is None else ', ' + str(idx)}) with active index {active}"
@@ -325,8 +330,8 @@ def eval_helpers(repo) -> Dict[str, Tuple[str, str]]:
             res.append(("mismatch", f"{label}: the reading is stored on candles {where} (helper series) / {top} (top-level series); the contract is candle {t_abs}, helper series"))
         elif selfo.attrs.get("_active_index") != target:
             res.append(("mismatch", f"{label}: leaves the cursor at {selfo.attrs.get('_active_index')!r}, the contract is {target}"))
-        elif [e[0] for e in events] != [(True, target, target + 1), (False, target, target + 1)] or [e[1] for e in events] != [False, True]:
-            res.append(("mismatch", f"{label}: helper recomputation calls {events!r}; the contract is prior helpers over [{target}, {target + 1}) before the store, the others after it"))
+        elif events != [(hn, "calculate_index", (target, target + 1), stored) if (target and target + 1) else (hn, "calculate", (), stored) for hn, stored in (("P", False), ("Q", True))]:
+            res.append(("mismatch", f"{label}: helper recomputation {events!r}; the contract is the prior helper over [{target}, {target + 1}) before the store, the other one after it (resuming with calculate() when the range starts or ends at 0)"))
         else:
             res.append(("ok", ""))
     out["Managed.set_reading"] = _fold(res)
